@@ -262,6 +262,7 @@ CODEC = {
     "SRV": (26, 16, "thorough", None),
 }
 CODEC_PER = 12  # failing positions per job
+MXDOT = (28, (13,))  # allocations of the unfailed write; position of the question name's ares_strdup() in ares_nameoffset_create
 
 
 def codec_jobs(tier):
@@ -285,10 +286,26 @@ def codec_jobs(tier):
                           defines=base + ["-DDIR=%d" % d] + defs + kfd, real=REC_LIB, support=REC_SUP, unwind=140,
                           unwindset=["vp_realloc.0:650"], witnesses=wit,
                           bound="public-API record (1 question + 1 RR: %s), values symbolic; %s with %s" % (txt, what, stxt))
-                if kfd:
+                lo, hi = [int(x) for x in snm[1:].split("_")]
+                if kfd and any(lo <= k <= hi for k in kf):
                     jd["kf_group"] = "codec_parse_optval"
                 return jd
             J += sliced(mk, nalloc=n, per=CODEC_PER)
+    # a name written with a trailing dot AFTER another name: exposes a compression target recorded without its text
+    nw, kf = MXDOT
+    base = ["-DRTYPE=15", "-DSECT=1", "-DTRAILDOT", '-DEXPECT_N1="m.c"'] + c03.names(qname="a.b", owner="a.b", n1="m.c.") + \
+        c03.hdr(0x19, 0, 0, 15, 1, 1)
+
+    def mkdot(snm, defs, stxt, wit):
+        lo, hi = [int(x) for x in snm[1:].split("_")]
+        inreg = any(lo <= k <= hi for k in kf)
+        return dict(name="codec_write_MXdot_%s" % snm, harness="codec_oom.c",
+                    defines=base + ["-DDIR=0"] + defs + ["-DKFLO=%d" % kf[0], "-DKFHI=%d" % kf[0]],
+                    real=REC_LIB, support=REC_SUP, unwind=140, unwindset=["vp_realloc.0:650"],
+                    witnesses=[w for w in wit if w != FAILW],
+                    bound="public-API record: question a.b, MX a.b -> \"m.c.\" (trailing dot); ares_dns_write with " + stxt,
+                    **({"kf_group": "codec_write_nameoffset"} if inreg else {}))
+    J += sliced(mkdot, nalloc=nw, per=CODEC_PER)
     return J
 
 
